@@ -425,6 +425,7 @@ func runC13(c *Ctx) error {
 		}
 	})
 	wsInsideTags(c)
+	numericBoundaries(c)
 	for i, j := range jobs {
 		if j.arrays != "" && !j.long && strings.HasPrefix(arrAns[i], "nil ") {
 			c.Stat("arrays.compared")
@@ -521,6 +522,62 @@ func wsInsideTags(c *Ctx) {
 			c.Violate(Case{Entry: "xmp.ParseXmp", Input: doc, Expected: "returns", Actual: "panic", Kind: "panic", Frame: fr, Class: cs[0]})
 		} else if want := `err=nil make="Canon" model="EOS"`; got != want {
 			c.Violate(Case{Entry: "xmp.ParseXmp", Input: doc, Expected: want, Actual: got, Kind: "wrong-value", Class: cs[0]})
+		}
+	}
+}
+
+// numericBoundaries: the largest value of each numeric property's type, and its neighbours, in attribute and element
+// form, against an expectation written down here (the record expectation of the generated packets goes through the
+// library's own value parsers and moves with them). A value the type can hold must be reported as written.
+func numericBoundaries(c *Ctx) {
+	pre := `<x:xmpmeta xmlns:x="adobe:ns:meta/"><rdf:RDF xmlns:rdf="http://www.w3.org/1999/02/22-rdf-syntax-ns#">`
+	post := `</rdf:RDF></x:xmpmeta>`
+	type nb struct {
+		prefix, name string
+		val          uint64
+		get          func(x *xmp.XMP) uint64
+	}
+	var cases []nb
+	for _, v := range []uint64{0, 1, 9, 10, 254, 255, 256, 65534, 65535, 4294967294, 4294967295} {
+		v := v
+		if v <= 255 && (v < 7 || v == 255) {
+			// exif:MeteringMode: 0..6 and 255 ("other") are the documented values
+			cases = append(cases, nb{"exif", "MeteringMode", v, func(x *xmp.XMP) uint64 { return uint64(x.Exif.MeteringMode) }})
+		}
+		if v <= 8 {
+			cases = append(cases, nb{"exif", "ExposureProgram", v, func(x *xmp.XMP) uint64 { return uint64(x.Exif.ExposureProgram) }})
+		}
+		if v <= 65535 {
+			cases = append(cases, nb{"tiff", "ImageWidth", v, func(x *xmp.XMP) uint64 { return uint64(x.Tiff.ImageWidth) }})
+			cases = append(cases, nb{"tiff", "ImageLength", v, func(x *xmp.XMP) uint64 { return uint64(x.Tiff.ImageLength) }})
+			cases = append(cases, nb{"aux", "ImageNumber", v, func(x *xmp.XMP) uint64 { return uint64(x.Aux.ImageNumber) }})
+		}
+		cases = append(cases, nb{"exif", "PixelXDimension", v, func(x *xmp.XMP) uint64 { return uint64(x.Exif.PixelXDimension) }})
+		cases = append(cases, nb{"exif", "PixelYDimension", v, func(x *xmp.XMP) uint64 { return uint64(x.Exif.PixelYDimension) }})
+		cases = append(cases, nb{"aux", "LensID", v, func(x *xmp.XMP) uint64 { return uint64(x.Aux.LensID) }})
+	}
+	for _, cs := range cases {
+		for form := 0; form < 2; form++ {
+			var doc string
+			if form == 0 {
+				doc = fmt.Sprintf(`%s<rdf:Description rdf:about="" %s:%s="%d"/>%s`, pre, cs.prefix, cs.name, cs.val, post)
+			} else {
+				doc = fmt.Sprintf(`%s<rdf:Description rdf:about=""><%s:%s>%d</%s:%s></rdf:Description>%s`, pre, cs.prefix, cs.name, cs.val, cs.prefix, cs.name, post)
+			}
+			var x xmp.XMP
+			var err error
+			p, fr, _ := safely(func() { x, err = xmp.ParseXmp(bytes.NewReader([]byte(doc))) })
+			c.Count("numericBoundaries", true)
+			c.Stat("numeric." + cs.prefix + ":" + cs.name)
+			class := fmt.Sprintf("numeric-boundary:%s:%s", cs.prefix, cs.name)
+			if p {
+				c.Violate(Case{Entry: "xmp.ParseXmp", Input: doc, Expected: "returns", Actual: "panic", Kind: "panic", Frame: fr, Class: class})
+				continue
+			}
+			got := fmt.Sprintf("err=%s value=%d", xmpErr(err), cs.get(&x))
+			if want := fmt.Sprintf("err=nil value=%d", cs.val); got != want {
+				c.Violate(Case{Entry: "xmp.ParseXmp", Input: doc, Expected: want, Actual: got, Kind: "wrong-value", Class: class})
+			}
 		}
 	}
 }
